@@ -212,6 +212,8 @@ type state struct {
 	built    bool
 	vh       vhState
 	mesh     meshState
+	// oracle-only switch: evaluate the spec with the deviation of finding F-C12-1 (classification)
+	f1Variant bool
 }
 
 func newState() *state {
@@ -231,6 +233,7 @@ func (s *state) reset() {
 	s.routes = nil
 	s.built = false
 	s.vh = vhState{}
+	s.mesh.drop()
 	s.mesh = meshState{}
 }
 
